@@ -82,6 +82,15 @@ func c05async(w *W, policy string, cap, k int, state string, layout bool, ci int
 		}
 		if n%4 == 0 {
 			l.Write([]byte("raw " + id + "\n"))
+		} else if n%9 == 5 && state != "mid-append" && n < cap/2 && k <= cap-10 {
+			// a zero-length raw write ahead of the item (free-running worker; it takes a slot for a moment, which is why it
+			// is not used where the occupancy is counted exactly): an item like any other - whatever follows it is still flushed
+			if n%2 == 0 {
+				l.Write(nil)
+			} else {
+				l.Write([]byte{})
+			}
+			appendEvent(l, log.WarnLevel, id)
 		} else {
 			appendEvent(l, log.WarnLevel, id)
 		}
@@ -410,6 +419,56 @@ func c05rollfds(w *W, writers, boundaries int, ci int, dir string) (string, stri
 	return "", ""
 }
 
+// c05rollfdsSeq: one goroutine, one write at a time. The moment a write that performed a rotation has returned, no write is
+// in progress: the appender holds at most two descriptors (current + previous) - whatever it may still be tidying up in the
+// background - and right after Stop none. The same object is then started again and must behave the same way.
+func c05rollfdsSeq(w *W, boundaries int, ci int, dir string) (string, string) {
+	_ = os.RemoveAll(dir)
+	_ = os.MkdirAll(dir, 0755)
+	ap := &log.RollingFileAppender{AppenderBase: log.AppenderBase{Name: "roll"}, Layout: &log.TextLayout{}, FileDir: dir, FileName: "q.log", Rotation: log.TimeRotation{Interval: time.Second}, MaxAge: 24}
+	maxFds, n := 0, 0
+	for life := 0; life < 2; life++ {
+		if err := ap.Start(); err != nil {
+			return "start: " + err.Error(), "start"
+		}
+		for b := 0; b < boundaries; b++ {
+			now := time.Now()
+			time.Sleep(now.Truncate(time.Second).Add(time.Second + time.Millisecond).Sub(now))
+			n++
+			ap.Write([]byte(fmt.Sprintf("id-q%dx%d-%d first write of the interval\n", ci, life, n)))
+			fds := fdsInto(dir) // taken at once: the rotating write has just returned
+			if len(fds) > maxFds {
+				maxFds = len(fds)
+			}
+			if len(fds) > 2 {
+				ap.Stop()
+				return fmt.Sprintf("%d descriptors into the log directory right after the write that rotated at boundary %d of life %d returned (single writer, nothing in progress): %v", len(fds), b, life, fds), "fd-accumulation-after-rotating-write"
+			}
+			for i := 0; i < 3; i++ {
+				n++
+				ap.Write([]byte(fmt.Sprintf("id-q%dx%d-%d\n", ci, life, n)))
+			}
+		}
+		if life == 0 {
+			// stop right after a rotating write
+			now := time.Now()
+			time.Sleep(now.Truncate(time.Second).Add(time.Second + time.Millisecond).Sub(now))
+			n++
+			ap.Write([]byte(fmt.Sprintf("id-q%dx%d-%d\n", ci, life, n)))
+		}
+		ap.Stop()
+		if fds := fdsInto(dir); len(fds) != 0 {
+			return fmt.Sprintf("descriptors still open right after Stop (life %d): %v", life, fds), "fd-leak"
+		}
+	}
+	got := idsIn(readDirAll(dir))
+	if len(got) != n {
+		return fmt.Sprintf("%d lines written one at a time over two lives of one appender, %d distinct ids in the directory", n, len(got)), "lost-write-sequential"
+	}
+	w.CountMax("max_fds_right_after_a_rotating_write", int64(maxFds))
+	return "", ""
+}
+
 // c05outageFds: the log directory disappears across a boundary (the rotation fails), comes back, and the
 // appender is stopped: no descriptor of the stopped appender may remain, whatever happened in between.
 func c05outageFds(w *W, ci int, dir string, restore bool) (string, string) {
@@ -636,6 +695,16 @@ func c05Worker(w *W) {
 			w.Distinct(fmt.Sprintf("rollfds|w%d|b%d|%s", writers, w.Spec.N, w.Spec.Flavour))
 			w.Sample(cs)
 		}
+	case "rollfdsseq":
+		d, cls := c05rollfdsSeq(w, int(w.Spec.N), w.Spec.Shard, dir)
+		w.Eval(1)
+		cs := map[string]any{"scenario": "single writer, descriptors counted right after each rotating write and right after Stop, two lives of one appender", "env": w.Spec.Env}
+		if d != "" {
+			report("rolling:"+cls, d, cs)
+		} else {
+			w.Distinct(fmt.Sprintf("rollfdsseq|%v", w.Spec.Env))
+			w.Sample(cs)
+		}
 	case "outagefds":
 		restore := w.Arg("restore", "true") == "true"
 		d, cls := c05outageFds(w, w.Spec.Shard, dir, restore)
@@ -702,6 +771,58 @@ func c05Worker(w *W) {
 				}
 			}
 		}
+		// several lives of one RollingFileLogger object (sync and async, with and without a separate .wf file): every Stop
+		// flushes what that life accepted and releases its descriptors
+		for vi, v := range []struct{ async, separate bool }{{false, false}, {true, false}, {true, true}, {false, true}} {
+			rdir := filepath.Join(dir, fmt.Sprintf("relife%d", vi))
+			_ = os.MkdirAll(rdir, 0755)
+			all := log.LevelRange{MinLevel: log.NoneLevel, MaxLevel: log.MaxLevel}
+			rl := &log.RollingFileLogger{LoggerBase: log.LoggerBase{Name: "rl", Level: all}, FileDir: rdir, FileName: "rl.log", Separate: v.separate,
+				Rotation: log.TimeRotation{Interval: time.Hour}, MaxAge: 24, AsyncWrite: v.async, BufferSize: 4000, BufferFullPolicy: log.BufferFullPolicyBlock}
+			cs := map[string]any{"scenario": "RollingFileLogger started and stopped three times", "async": v.async, "separate": v.separate}
+			bad := ""
+			var want []string
+			for life := 0; life < 3 && bad == ""; life++ {
+				if err := rl.Start(); err != nil {
+					bad = fmt.Sprintf("life %d: Start failed: %v", life, err)
+					break
+				}
+				for i := 0; i < 1500; i++ {
+					id := fmt.Sprintf("id-rl%dx%d-%d", vi, life, i)
+					want = append(want, id)
+					appendEvent(rl, []log.Level{log.InfoLevel, log.ErrorLevel}[i%2], id)
+				}
+				done, pv, dump := callWithWatchdog(30*time.Second, rl.Stop)
+				switch {
+				case !done:
+					if blocked, gr := blockedInLibrary(dump, "watchdogMarker"); blocked {
+						bad = fmt.Sprintf("life %d: Stop does not return:\n%s", life, trunc(gr, 1000))
+					} else {
+						w.Inconclusive("RollingFileLogger.Stop watchdog fired without a parked goroutine")
+						return
+					}
+				case pv != nil:
+					bad = fmt.Sprintf("life %d: Stop panicked: %v", life, pv)
+				default:
+					got := idsIn(readDirAll(rdir)) // read at once: Stop has just returned
+					for _, id := range want {
+						if got[id] != 1 {
+							bad = fmt.Sprintf("life %d: %s was accepted before Stop and is in the files %d times right after Stop returned (%d of %d present)", life, id, got[id], len(got), len(want))
+							break
+						}
+					}
+					if fds := fdsInto(rdir); bad == "" && len(fds) != 0 {
+						bad = fmt.Sprintf("life %d: descriptors still open after Stop: %v", life, fds)
+					}
+				}
+			}
+			w.Eval(1)
+			if bad != "" {
+				w.Violate("C05:rolling-logger:relife", bad, cs)
+			} else {
+				w.Distinct(fmt.Sprintf("rolling-logger-relife|async=%v|separate=%v", v.async, v.separate))
+			}
+		}
 	}
 	_ = bytes.MinRead
 }
@@ -743,6 +864,12 @@ func init() {
 				if i == 1 {
 					s.Flavour = "race"
 				}
+				specs = append(specs, s)
+			}
+			for i, env := range [][]string{nil, {"GOMAXPROCS=1"}, {"GOMAXPROCS=2", "GOGC=1"}} {
+				s := d.NewSpec("rollfdsseq", fmt.Sprintf("rollfdsseq-%d", i), i, 3)
+				s.N = d.Pick(3, 6)
+				s.Env = env
 				specs = append(specs, s)
 			}
 			specs = append(specs, d.NewSpec("doublestop", "doublestop", 0, 1))
